@@ -2826,7 +2826,21 @@ namespace bloch::runtime {
             bool matchedCtor = false;
             bool ambiguousCtor = false;
             int bestCost = std::numeric_limits<int>::max();
+            // Only constructors the calling code may use take part, as in the analyser: a
+            // private one that happens to fit the dynamic argument better must not win.
+            auto accessibleHere = [&](const RuntimeConstructor& c) {
+                if (!c.decl || c.decl->visibility == compiler::Visibility::Public)
+                    return true;
+                if (c.decl->visibility == compiler::Visibility::Private)
+                    return m_currentClassCtx == cls;
+                for (RuntimeClass* k = m_currentClassCtx; k; k = k->base)
+                    if (k == cls)
+                        return true;
+                return false;
+            };
             for (auto& c : cls->constructors) {
+                if (!accessibleHere(c))
+                    continue;
                 auto cost = argumentsConversionCost(c.params, args);
                 if (!cost)
                     continue;
